@@ -203,6 +203,8 @@ PROPS = {
              "args": ["--mix", "iterate=3,satisfy=1,optimise=1", "--kinds", "cumul,cumul,cumul,linle,impl,clause", "--maxproduct", "4000"]},
             {"name": "cumulative-tap", "mode": "tap", "quick": 150, "thorough": 4000,
              "args": ["--kinds", "cumul,cumul,linle"]},
+            {"name": "cumulative-probe", "mode": "probe", "quick": 1500, "thorough": 30000,
+             "args": ["--kinds", "cumul", "--probes", "200"]},
         ],
         "relevant": panic_or({"solset", "subset", "sol", "verdict", "opt", "partial", "bad", "infer"}, ["iterate", "satisfy", "optimise", "tap"]),
         "level_text": "Proof: cumulative_sat_iff — the executable test used by the oracle (load at every task start <= capacity, 0 <= capacity) is equivalent to the documented meaning (at EVERY integer time point the usages of the running tasks sum to at most the capacity) for non-negative usages; loadAt_drop_zero — zero-usage / zero-duration tasks never contribute. Tie to code: models built around cumulative constraints (durations 0-3, usages 0-3, capacity 0-4, negative / scaled / offset / sparse start times, half-reified) are iterated to completion under option sets drawn from all 144 CumulativeOptions combinations; each solution set must equal the oracle's; every explanation of every variant seen by the tap is checked by checkInference against the cumulative constraint.",
@@ -236,6 +238,8 @@ PROPS = {
         "streams": [
             {"name": "tap", "mode": "tap", "quick": 500, "thorough": 12000, "args": []},
             {"name": "probe", "mode": "probe", "quick": 1500, "thorough": 30000, "args": ["--probes", "200"]},
+            {"name": "cumulative-probe", "mode": "probe", "quick": 1500, "thorough": 30000,
+             "args": ["--kinds", "cumul", "--probes", "200"]},
         ],
         "relevant": panic_or({"infer", "minfer", "nogood", "bad", "implicit"}, ["tap"]),
         "lean_modules": ["Pumpkin.Model.ImplicitReason"],
